@@ -127,24 +127,21 @@ def r1_siblings(ctx):
         else:
             r.viol("R1:ranges-%s#template" % kind, "selection templates differ between the two generators", file=MR)
     # (c) plurals
-    fa = [f for f in ast.fns_named(MP, "to_token_stream") if f.impl_self is None]
-    fb = [f for f in ast.fns_named(MP, "as_string_impl") if f.impl_self is None]
-    if fa and fb:
-        la, lb = lets_of(fa[0]), lets_of(fb[0])
-        ca, cb = chain_of(la["match_arms"]["init"]), chain_of(lb["match_arms"]["init"])
-        na = [m for m in ca[1] if m != "enumerate"]
-        if ca[0] == cb[0] == "this.forms" and na == cb[1] == ["iter", "map"]:
-            r.inst("plurals: iteration", "this.forms.iter().map in both")
-        else:
-            r.viol("R1:plurals#iteration", "forms are walked differently: %s vs %s" % (ca, cb), file=MP)
-        qa = [flat(tok_text(q["tokens"])) for q in xquotes(fa[0].body)]
-        qb = [flat(tok_text(q["tokens"])) for q in xquotes(fb[0].body)]
-        if any("{#(#match_arms,)*_=>#other,}" in q for q in qa) and any("{#(#match_arms,)*_=>#other,}" in q for q in qb):
-            r.inst("plurals: fallback", "`_ => #other` in both")
-        else:
-            r.viol("R1:plurals#fallback", "the two generators do not share the `_ => other` fallback", file=MP)
+    from rules import genplurals
+    outs = genplurals.evaluate(ast)
+    ska = genplurals.skeleton(outs.get("to_token_stream", (None, None, None))[1])
+    skb = genplurals.skeleton(outs.get("as_string_impl", (None, None, None))[1])
+    if ska is None or skb is None:
+        r.viol("R1:plurals#generators", "the plural generators cannot be evaluated: view %s / string %s" % (outs.get("to_token_stream", (0, 0, "missing"))[2], outs.get("as_string_impl", (0, 0, "missing"))[2]), file=MP)
     else:
-        r.missing("plurals generators")
+        if ska[1] == skb[1] and len(ska[1]) == 3:
+            r.inst("plurals: iteration", "both back-ends emit one arm per written form, in the same order, for the same categories and values")
+        else:
+            r.viol("R1:plurals#iteration", "forms are walked differently: view arms %s vs string arms %s" % (ska[1], skb[1]), file=MP)
+        if ska[2] == skb[2] == "vother" and ska[0] == skb[0] and ska[3] == skb[3]:
+            r.inst("plurals: fallback", "`_ => other`, same rule type and count in both")
+        else:
+            r.viol("R1:plurals#fallback", "the two generators do not share the `_ => other` fallback / rule type / count: view %s vs string %s" % (ska, skb), file=MP)
     # (d) formatter families
     fns = {n: ast.fn(MF, n, impl_self="Formatter") for n in ("var_to_view", "var_fmt", "var_to_display")}
     if any(v is None for v in fns.values()):
